@@ -970,3 +970,120 @@ Example ol_three_way_example :
   trainer_level T_r9 [97%N] = None /\ trainer_level T_r9 [97%N; 97%N] = None /\
   trainer_level T_r9 [97%N; 98%N; 97%N; 98%N; 97%N] = None.
 Proof. split; [apply T_r9_wf|]. split; [apply T_r9_wf|]. repeat split; vm_compute; reflexivity. Qed.
+
+(* ---------- line framing: the readers get the written line lists ---------- *)
+Lemma ol_has_any_false : forall bad s, has_any bad s = false <-> (forall c, In c s -> ~ In c bad).
+Proof.
+  intros bad s. unfold has_any. split.
+  - intros H c Hc Hb. assert (E : existsb (fun c0 => existsb (N.eqb c0) bad) s = true).
+    { apply existsb_exists. exists c. split; [exact Hc|]. apply existsb_exists. exists c. split; [exact Hb | apply N.eqb_refl]. }
+    congruence.
+  - intro H. apply not_true_is_false. intro E. apply existsb_exists in E. destruct E as [c [Hc E]].
+    apply existsb_exists in E. destruct E as [b [Hb E]]. apply N.eqb_eq in E. subst. apply (H b Hc Hb).
+Qed.
+
+Lemma ol_lines_clean_true : forall bad ls,
+  lines_clean bad ls = true <-> (forall l s, In (l, s) ls -> forall c, In c s -> ~ In c bad).
+Proof.
+  intros bad ls. unfold lines_clean. rewrite forallb_forall. split.
+  - intros H l s HI. apply ol_has_any_false. specialize (H (l, s) HI). simpl in H. apply negb_true_iff in H. exact H.
+  - intros H [l s] HI. simpl. apply negb_true_iff. apply ol_has_any_false. apply (H l s HI).
+Qed.
+
+Lemma ol_chars_avoidb_sound : forall bad T, chars_avoidb bad T = true -> chars_avoid bad T.
+Proof.
+  intros bad T H e He. unfold chars_avoidb in H. rewrite forallb_forall in H. specialize (H e He).
+  apply andb_true_iff in H. destruct H as [H1 H2]. apply negb_true_iff in H1, H2.
+  split; [apply ol_has_any_false; exact H1|]. intros c l Hcl. apply (proj1 (ol_has_any_false bad _) H2 c).
+  apply in_map_iff. exists (c, l). split; [reflexivity | exact Hcl].
+Qed.
+
+Lemma ol_chars_avoid_sub : forall bad bad' T, (forall c, In c bad' -> In c bad) -> chars_avoid bad T -> chars_avoid bad' T.
+Proof.
+  intros bad bad' T Hs H e He. destruct (H e He) as [H1 H2]. split.
+  - intros c Hc Hb. apply (H1 c Hc). apply Hs. exact Hb.
+  - intros c l Hc Hb. apply (H2 c l Hc). apply Hs. exact Hb.
+Qed.
+
+Lemma ol_clean_write_ip : forall bad T, chars_avoid bad T -> lines_clean bad (write_ip T) = true.
+Proof.
+  intros bad T H. apply ol_lines_clean_true. intros l s HI c Hc. unfold write_ip in HI. apply in_map_iff in HI.
+  destruct HI as [e [E He]]. inversion E; subst. apply (proj1 (H e He) c Hc).
+Qed.
+
+Lemma ol_clean_write_ep : forall bad T, chars_avoid bad T -> lines_clean bad (write_ep T) = true.
+Proof.
+  intros bad T H. apply ol_lines_clean_true. intros l s HI c Hc. unfold write_ep in HI. apply in_map_iff in HI.
+  destruct HI as [e [E He]]. inversion E; subst. apply (proj1 (H e He) c Hc).
+Qed.
+
+Lemma ol_clean_write_cp : forall bad T, chars_avoid bad T -> lines_clean bad (write_cp T) = true.
+Proof.
+  intros bad T H. apply ol_lines_clean_true. intros l s HI c Hc. unfold write_cp in HI. apply in_flat_map in HI.
+  destruct HI as [e [He HI]]. apply ol_in_entry_lines in HI. destruct HI as [c' [Hc' Es]]. subst s.
+  apply in_app_or in Hc. destruct Hc as [Hc|[Hc|[]]]; [apply (proj1 (H e He) c Hc) | subst; apply (proj2 (H e He) c l Hc')].
+Qed.
+
+Theorem ol_read_g_write : forall breaks T, levels_le guesser_max_level T -> chars_avoid (TABc :: breaks) T ->
+  read_g breaks (write T) = Some (gview T).
+Proof.
+  intros breaks T HL HC. unfold read_g. simpl f_ip. simpl f_ep. simpl f_cp.
+  rewrite ol_clean_write_ip, ol_clean_write_ep, ol_clean_write_cp by exact HC. simpl. apply ol_load_g_write. exact HL.
+Qed.
+
+Theorem ol_read_s_write : forall breaks T, chars_avoid (TABc :: breaks) T ->
+  read_s true breaks (write T) = Some (load_s (write T)).
+Proof.
+  intros breaks T HC. unfold read_s. simpl f_ip. simpl f_cp.
+  rewrite ol_clean_write_ip, ol_clean_write_cp by exact HC. reflexivity.
+Qed.
+
+(* C11 with the readers' framing made explicit *)
+Theorem ol_scorer_reads_and_agrees : forall sbreaks T, wf_ttab T -> chars_avoid (TABc :: sbreaks) T ->
+  exists Sc, read_s true sbreaks (write T) = Some Sc /\ forall s, scorer_level Sc s = trainer_level T s.
+Proof.
+  intros sbreaks T WF HC. exists (load_s (write T)). split; [apply ol_read_s_write; exact HC | apply ol_scorer_eq_trainer; exact WF].
+Qed.
+
+Theorem ol_guesser_reads_and_agrees : forall breaks T, wf_ttab T -> levels_le guesser_max_level T ->
+  chars_avoid (TABc :: breaks) T ->
+  exists G, read_g breaks (write T) = Some G /\ wf_tables G /\
+  forall s L, In s (level_strings G (Z.of_nat L)) <-> trainer_level T s = Some L.
+Proof.
+  intros breaks T WF HL HC. exists (gview T). split; [apply ol_read_g_write; assumption|].
+  split; [apply ol_wf_tables_gview; assumption|]. intros s L.
+  destruct (ol_three_way T WF HL s L) as [_ H]. symmetry. exact H.
+Qed.
+
+(* a table whose characters the trainer admits avoids every line end the trainer rejects *)
+Lemma ol_avoid_from_rejected : forall rejected breaks T,
+  forallb (fun c => existsb (N.eqb c) rejected) (TABc :: breaks) = true ->
+  chars_avoid rejected T -> chars_avoid (TABc :: breaks) T.
+Proof.
+  intros rejected breaks T H HC. apply (ol_chars_avoid_sub rejected); [|exact HC].
+  intros c Hc. rewrite forallb_forall in H. specialize (H c Hc). apply existsb_exists in H.
+  destruct H as [x [Hx E]]. apply N.eqb_eq in E. subst. exact Hx.
+Qed.
+
+(* ---------- the code as found: U+2029 is admitted by check_valid and ends a line for the guesser ---------- *)
+(* trained on the single password b a b U+2029, n-gram 4 *)
+Definition T_u2029 : ttab :=
+  mk_ttab 4 4 5
+    [mk_tentry [98%N; 97%N; 98%N] 0 10 [(8233%N, 0)]; mk_tentry [97%N; 98%N; 8233%N] 10 0 []]
+    [10; 10; 10; 0; 10].
+
+Theorem ol_refuted_u2029 :
+  wf_ttab T_u2029 /\ levels_le guesser_max_level T_u2029 /\
+  trainer_level T_u2029 [98%N; 97%N; 98%N; 8233%N] = Some 0 /\
+  (exists Sc, read_s true scorer_breaks (write T_u2029) = Some Sc /\ scorer_level Sc [98%N; 97%N; 98%N; 8233%N] = Some 0) /\
+  read_g [10%N; 13%N; 8233%N] (write T_u2029) = None.
+Proof.
+  split; [apply ol_wf_ttabb_sound; vm_compute; reflexivity|].
+  split; [apply ol_levels_leb_sound; vm_compute; reflexivity|].
+  split; [vm_compute; reflexivity|]. split; [|vm_compute; reflexivity].
+  eexists. split; [vm_compute; reflexivity | vm_compute; reflexivity].
+Qed.
+
+(* the scorer reading with another codec than the files were written with: nothing is loaded *)
+Theorem ol_refuted_scorer_codec : forall breaks F, read_s false breaks F = None.
+Proof. reflexivity. Qed.
